@@ -40,6 +40,7 @@ def directive_templates(prefixes=(b'', b'-', b'// '), wss=(b'', b'  ')):
             out.append(('include g(missing)', (head + b'include g',)))
             out.append(('run', (head + b'run c', ('sym', [49, 50]))))
             out.append(('write', (head + b'write w', ('sym', ASCII_LINE))))
+            out.append(('write bare', (head + b'write',)))          # the text starts on the next line: the first argument is empty
             out.append(('temp', (head + b'temp t.tmp',)))
             out.append(('temp txtpp', (head + b'temp t.txtpp',)))
             out.append(('temp txtpp.ext', (head + b'temp t.txtpp.md',)))
@@ -161,7 +162,10 @@ class SymEnv:
             env.add_file(p, c)
         if pre_out is not None:
             env.add_file(OUT, pre_out)
-        if pre_temp is not None:
+        if isinstance(pre_temp, str) and pre_temp == 'DIR':
+            env.add_dir(WORK + b'/t.tmp')                 # a directory is sitting at the temp target
+            env.add_file(WORK + b'/t.tmp/keep', b'keep')
+        elif pre_temp is not None:
             env.add_file(WORK + b'/t.tmp', pre_temp)
         env.proc_handler = self.proc
         self.env = env
